@@ -51,6 +51,11 @@ func errorPaylad(err error) []byte {
 
 // SendError send a error message in response to msg.
 func (c *channel) SendError(msg *net.Message, err error) error {
+	if msg.Header.Type != net.Call {
+		// only a call expects an answer: a post (or any
+		// other type of message) is not responded to.
+		return nil
+	}
 	hdr := net.NewHeader(net.Error, msg.Header.Service, msg.Header.Object,
 		msg.Header.Action, msg.Header.ID)
 	mError := net.NewMessage(hdr, errorPaylad(err))
@@ -109,6 +114,11 @@ func (c *tracedChannel) Send(msg *net.Message) error {
 }
 
 func (c *tracedChannel) SendError(msg *net.Message, err error) error {
+	if msg.Header.Type != net.Call {
+		// only a call expects an answer: a post (or any
+		// other type of message) is not responded to.
+		return nil
+	}
 	hdr := net.NewHeader(net.Error, msg.Header.Service, msg.Header.Object,
 		msg.Header.Action, msg.Header.ID)
 	mError := net.NewMessage(hdr, errorPaylad(err))
@@ -135,6 +145,11 @@ func (c *statChannel) Send(msg *net.Message) error {
 }
 
 func (c *statChannel) SendError(msg *net.Message, err error) error {
+	if msg.Header.Type != net.Call {
+		// only a call expects an answer: a post (or any
+		// other type of message) is not responded to.
+		return nil
+	}
 	hdr := net.NewHeader(net.Error, msg.Header.Service, msg.Header.Object,
 		msg.Header.Action, msg.Header.ID)
 	mError := net.NewMessage(hdr, errorPaylad(err))
